@@ -22,9 +22,9 @@ CLAIMS = {
  "C05": ("Theorems (all action lists, all orders): fold result = shift if proposed else smallest production; order independent; no competition leaves the entry unchanged; setAction is that fold. Every entry of every generated table compared with the rule stated outright; run-level behaviour tied to the Parse model.",
          "Run-level corollary (verdict and reductions of the resolved machine) is by correspondence with the model running the same table.",
          "Lean 4 proof (fold invariant, permutation invariance) + per-entry oracle + correspondence"),
- "C06": ("Theorems shared with C02 (accept iff sentence on validated tables; FIRST certificate soundness). The exact-error-position / exact-expected-set clauses are decided at oracle level: for conflict-free, error-free, productive grammars every rejected input is judged by an Earley recogniser on its prefixes (first non-viable token, token identity, expected list = viable continuations in type order, no reduction with the offending look-ahead). Parse model tied exactly to compiled parsers; tables tied to the generator model.",
-         "No theorem yet for the exact expected set (needs the validity part of the validator: every item of a state valid for its viable prefix).",
-         "Lean 4 theorems on validated tables (accept iff sentence) + Earley prefix oracle for the error clauses"),
+ "C06": ("Verified validators, all token sequences: on tables passing firstOk/complete/validItems (LR(1) item validity with rank certificates) a syntax error reports index i with w[:i] viable, the reported token is w[i] (or end of input) and cannot continue any sentence, the expected list is EXACTLY the viable continuations in increasing type order, and the final configuration equals that of the run on w[:i]+INVALID, i.e. nothing was reduced with the offending look-ahead (C06_error_token_is_first_offending, C06_expected_set_exact, C06_no_reduction_on_bad_lookahead). The validators are evaluated on every conflict-free, error-free, productive grammar the run visits (certificates from the model's item sets; FIRST/nullable/productivity ranks computed by the driver). Earley prefix oracle and INVALID-look-ahead baseline as independent checks; tables tied to the generator model exactly; histories on reused parsers.",
+         "'For all grammars' is covered by validating each visited grammar; token identity (the very scanner object) is checked behaviourally.",
+         "Lean 4 verified validators (item validity, lock-step determinism) + Earley prefix oracle + exact table correspondence"),
  "C07": ("Recovery model (Error/popNonRecoveryStates/firstRecoveryState/skip loop) tied exactly to compiled parsers on erroneous inputs; oracles: no panic/loop on conflict-free grammars, inertness against the error-free twin grammar, shifted tokens in input order at most once. Two genuine panics fixed (D7, D7b).",
          "recover = recoverSpec and termination are not yet theorems.",
          "correspondence with the Lean Parse/recover model + behavioural oracles"),
